@@ -651,6 +651,10 @@ type coldef struct {
 	BlockData BlockData
 	Column    wpg.Column
 	Notify    bool
+
+	// for indexed inputs: position of the input's topic in the log
+	// counting every indexed input, selected or not
+	topic int
 }
 
 // Implements the [shovel.Integration] interface
@@ -724,6 +728,12 @@ func (ig *Integration) setCols() {
 		}
 		return wpg.Column{}
 	}
+	topics := map[string]int{}
+	for _, input := range ig.Event.Inputs {
+		if input.Indexed {
+			topics[input.Name] = 1 + len(topics)
+		}
+	}
 	for _, input := range ig.Event.Selected() {
 		c := getCol(input.Column)
 		ig.Columns = append(ig.Columns, c.Name)
@@ -731,6 +741,7 @@ func (ig *Integration) setCols() {
 			Input:  input,
 			Column: c,
 			Notify: slices.Contains(ig.Notification.Columns, c.Name),
+			topic:  topics[input.Name],
 		})
 		ig.numSelected++
 	}
@@ -1026,18 +1037,17 @@ func (ig Integration) processLog(rows [][]any, lwc *logWithCtx, pgmut *sync.Mute
 			return nil, fmt.Errorf("scanning abi data: %w", err)
 		}
 		for i := 0; i < ig.resultCache.Len(); i++ {
-			ictr, actr := 1, 0
+			actr := 0
 			frs := filterResults{kind: ig.filterAGG}
 			row := make([]any, len(ig.coldefs))
 			for j, def := range ig.coldefs {
 				switch {
 				case def.Input.Indexed:
-					d := dbtype(def.Input.Type, lwc.l.Topics[ictr])
+					d := dbtype(def.Input.Type, lwc.l.Topics[def.topic])
 					if err := def.Input.Accept(lwc.ctx, pgmut, pg, d, &frs); err != nil {
 						return nil, fmt.Errorf("checking filter: %w", err)
 					}
 					row[j] = d
-					ictr++
 				case !def.BlockData.Empty():
 					var d any
 					switch {
@@ -1069,7 +1079,7 @@ func (ig Integration) processLog(rows [][]any, lwc *logWithCtx, pgmut *sync.Mute
 		for i, def := range ig.coldefs {
 			switch {
 			case def.Input.Indexed:
-				d := dbtype(def.Input.Type, lwc.l.Topics[1+i])
+				d := dbtype(def.Input.Type, lwc.l.Topics[def.topic])
 				if err := def.Input.Accept(lwc.ctx, pgmut, pg, d, &frs); err != nil {
 					return nil, fmt.Errorf("checking filter: %w", err)
 				}
